@@ -183,6 +183,17 @@ CHECKS["C15"] = dict(
     note="Trusted: TLC, float comparison, sympy for substituting the point. Tensor-box/bubble gradients and jacobians: not yet.",
     ref="5/C15", technique="TLA+ exact derivative semantics + TLC as reference evaluator, replay of model circuits")
 
+CHECKS["C13"] = dict(
+    text="Tket.tla simulates a recorded tket circuit exactly (branch vectors over the exact ring, mid-circuit "
+         "measurements), then post-selects, scales and post-processes; the result must equal CQ!Counts of the "
+         "circuit (to_tk), resp. CQ!Counts / the prepared state vector of the imported circuit must equal it "
+         "(from_tk, for exported circuits and harness-assembled tket circuits with non-adjacent, reversed qubits). "
+         "get_counts(backend) and eval(backend) run through a mock backend returning exact frequencies (numpy branch "
+         "simulator, itself checked against TLC) and are compared with TLC's exact distribution.",
+    category="translation_validation",
+    note="Trusted: TLC, projections of tket circuits and of imported circuits, float comparison. Three known findings.",
+    ref="5/C13", technique="TLA+ exact simulator + TLC judging recorded translations (translation validation)")
+
 NOT_YET = {}
 
 
